@@ -107,7 +107,10 @@ var numBoundaries = []string{
 // genDigits draws a decimal digit string biased to overflow boundaries.
 func genDigits(t *rapid.T, label string) B {
 	var s string
-	switch weighted(t, label+"_k", 5, 3, 3, 2) {
+	switch weighted(t, label+"_k", 5, 3, 3, 2, 3) {
+	case 4: // a range limit followed by more digits
+		s = pick(t, label+"_lim", "255", "65535", "65536", "16777216", "4294967295", "4294967296", "18446744073709551615", "999999999") +
+			string(genFrom(t, label+"_suf", "0123456789", 1, 3))
 	case 0: // boundary +- small delta, done on the decimal string
 		s = pick(t, label+"_b", numBoundaries...)
 		d := rapid.IntRange(-20, 20).Draw(t, label+"_d")
@@ -738,11 +741,18 @@ func genFLine(t *rapid.T) FLSpec {
 	f.EOL = genEOL(t, "fl_eol")
 	if rapid.IntRange(0, 2).Draw(t, "isreq") != 0 {
 		f.Req = true
-		switch weighted(t, "meth_k", 6, 2, 2) {
+		switch weighted(t, "meth_k", 6, 2, 2, 2) {
 		case 0:
 			f.Method = B(pick(t, "meth", methodNames...))
 		case 1:
 			f.Method = recase(t, pick(t, "meth", methodNames...))
+		case 3: // an unknown (possibly long) token that starts or ends with a table method
+			pad := genFrom(t, "meth_pad", "ABCDEFGHIJKLMNOPQRSTUVWXYZ-._", 1, 24)
+			if rapid.Bool().Draw(t, "meth_sfx") {
+				f.Method = append(pad, pick(t, "meth", methodNames...)...)
+			} else {
+				f.Method = append(B(pick(t, "meth", methodNames...)), pad...)
+			}
 		default:
 			f.Method = genFrom(t, "meth_r", "ABCDEFGHIJKLMNOPQRSTUVWXYZabc0123456789-._!%*+", 1, 10)
 		}
